@@ -1,6 +1,6 @@
 (* C15: refutation witnesses, examples, and the small lemmas about extraction and defaults. *)
 From Gv Require Import lib.Bytes lib.Gql C15.Unicode C15.Model C15.Spec C15.Diag
-  C15.ProofsStr C15.ProofsNum C15.ProofsEnc C15.ProofsBlock C15.ProofsJson C15.ProofsFwd C15.History.
+  C15.ProofsStr C15.ProofsNum C15.ProofsEnc C15.ProofsBlock C15.ProofsRescan C15.ProofsJson C15.ProofsFwd C15.History.
 From Coq Require Import Lia ZifyN ZifyNat ZifyBool ZArith.
 Open Scope N_scope.
 
@@ -16,18 +16,29 @@ Definition w_quote_ws : value := VStr [32; 34; 32; 32; 97] true.
 (* three spaces, as a block string *)
 Definition w_blank : value := VStr [32; 32; 32] true.
 
-(* still refuted on the repaired code: the braced escape is copied as it is *)
-Lemma vars_valid_json_refuted_proof :
-  exists l, lit_valid l /\ json_denote (value_to_json [] l) = JInvalid.
-Proof. exists w_brace. split; vm_compute; reflexivity. Qed.
-
+(* (the refutations that used to stand here -- the braced escape copied as it is, the quote next to the
+   white space the lexer trims -- are historical since c15_fix_braced-unicode-escape and
+   c15_fix_block-quote-next-to-whitespace: History.hist_brace_invalid, History.hist_quote_ws_differs) *)
 Definition differs (l : value) : Prop :=
   lit_valid l /\ exists d, json_denote (value_to_json [] l) = JOk d /\ dval_eqb d (gql_denote [] l) = false.
 
-(* still refuted on the repaired code: a quote next to the white space the lexer trims *)
-Lemma value_preserved_refuted_quote_ws_proof : differs w_quote_ws.
-Proof. split; [vm_compute; reflexivity|]. eexists. split; vm_compute; reflexivity. Qed.
-Example w_quote_ws_go : block_string_value [32; 34; 32; 32; 97] = [32; 32; 97]
+(* BACKSLASH u { 1 F 6 0 0 } BACKSLASH BACKSLASH u { 4 1 }  in quotes: a braced escape above U+FFFF followed by an
+   escaped backslash and the plain text u{41} *)
+Definition w_brace_big : value := VStr [92; 117; 123; 49; 70; 54; 48; 48; 125; 92; 92; 117; 123; 52; 49; 125] false.
+(* a SPACE DQUOTE SPACE  as a block string *)
+Definition w_quote_ws2 : value := VStr [97; 32; 34; 32] true.
+Definition ex_repaired2 : value := VList [w_brace; w_brace_big; w_quote_ws; w_quote_ws2].
+Example ex_repaired2_hyps : lit_valid ex_repaired2 /\ go_safe_b ex_repaired2 = true.
+Proof. split; vm_compute; reflexivity. Qed.
+Example ex_repaired2_text :
+  (* [`\u0041`,`\ud83d\ude00\\u{41}`,` \`  a`,`a \` `] with ` standing for the quotation mark *)
+  value_to_json [] ex_repaired2 =
+  [91; 34; 92; 117; 48; 48; 52; 49; 34; 44; 34; 92; 117; 100; 56; 51; 100; 92; 117; 100; 101; 48; 48; 92; 92; 117; 123; 52; 49; 125; 34;
+   44; 34; 32; 92; 34; 32; 32; 97; 34; 44; 34; 97; 32; 92; 34; 32; 34; 93]
+  /\ gql_denote [] ex_repaired2 =
+     DList [DStr [65]; DStr [240; 159; 152; 128; 92; 117; 123; 52; 49; 125]; DStr [32; 34; 32; 32; 97]; DStr [97; 32; 34; 32]].
+Proof. split; vm_compute; reflexivity. Qed.
+Example w_quote_ws_go : block_string_value [32; 34; 32; 32; 97] = [32; 34; 32; 32; 97]
                         /\ spec_block_value [32; 34; 32; 32; 97] = [32; 34; 32; 32; 97].
 Proof. split; vm_compute; reflexivity. Qed.
 
